@@ -42,6 +42,9 @@ class Seam:
     # ---- the subprocess replacement: Popen / call / run with the same surface --------------------
     def _start(self, args, stdin, stdout, stderr, env, shell, cwd, timeout, kw):
         name = _program_name(args)
+        if timeout is not None and timeout != 'popen':
+            # subprocess computes the deadline as a float (time + timeout): an int beyond float range raises OverflowError, a non-number TypeError
+            0.0 + timeout
         stdin_text = _read_stdin(stdin)
         try:
             here = os.getcwd()
